@@ -14,6 +14,8 @@ func init() {
 
 // lockedWhole reports whether the method's body starts with `recv.lock.Lock()` followed by
 // `defer recv.lock.Unlock()`, i.e. the whole operation runs under the receiver's mutex.
+var lockFieldName = "lock"
+
 func lockedWhole(fn *ast.FuncDecl) bool {
 	if fn.Body == nil || len(fn.Body.List) < 2 {
 		return false
@@ -28,7 +30,7 @@ func lockedWhole(fn *ast.FuncDecl) bool {
 			return false
 		}
 		inner, ok := sel.X.(*ast.SelectorExpr)
-		return ok && inner.Sel.Name == "lock"
+		return ok && (inner.Sel.Name == "lock" || inner.Sel.Name == lockFieldName)
 	}
 	s0, ok := fn.Body.List[0].(*ast.ExprStmt)
 	if !ok || !isLockCall(s0.X, "Lock") {
